@@ -727,6 +727,11 @@ def _structural(op, args):
         # axis when the dropped axis is counted from the end
         a = P(args[0])
         at = a.single_atom()
+        if isinstance(at, App) and at.op == "matmul" and len(args) >= 2 and args[1] == -2 and isinstance(at.args[0], Poly):
+            # a vector made a one-row matrix, multiplied, and the row axis dropped again: the vector-matrix product
+            ua = at.args[0].single_atom()
+            if isinstance(ua, App) and ua.op == "unsq" and len(ua.args) >= 3 and ua.args[1] == -2 and ua.args[2] == 2:
+                return app("matmul", ua.args[0], at.args[1])
         if isinstance(at, Exp):
             return exp(app("sq", at.arg, *args[1:]))
         if isinstance(at, App) and at.op in ("softplus", "sigmoid", "cos", "sin", "sqrt", "log", "abs", "tanh") and len(at.args) == 1:
